@@ -33,12 +33,14 @@ DEVS = [("Ind_dev_sliceany.cfg", "fragment nodes sliced in set-iteration order (
         ("Ind_dev_addany.cfg", "blocks added in node order instead of residue-id order"),
         ("Ind_dev_firstmatch.cfg", "a link applied to the first match found only"),
         ("Ind_dev_orient.cfg", "stored edge orientation decides the link direction"),
+        ("Ind_dev_oncegroup.cfg", "a link applied once per set of residues: one orientation of a `*` link lost (seed-C13-2)"),
         ("Ind_dev_dfstree.cfg", "fragments = components over depth-first tree edges (F31, repaired)"),
         ("Ind_dev_fragid.cfg", "correspondences stored in merge order, looked up by fragment id (F32, repaired)"),
         ("Ind_dev_itpglobal.cfg", "finishing an .itp re-tags the versions of all links read so far (F33, repaired)")]
 HDEVS = [("Ind_hist_dev_cacheff.cfg", "loaded force fields cached between calls: retagged exclusion distances / citation sets leak"),
          ("Ind_hist_dev_append.cfg", "output appended to an existing file"),
-         ("Ind_hist_dev_flushlate.cfg", "deferred writer queue flushed by the next call")]
+         ("Ind_hist_dev_flushlate.cfg", "deferred writer queue flushed by the next call"),
+         ("Ind_hist_dev_inpathleak.cfg", "library files appended to the (mutable default) inpath list of gen_params (seed-C13-1)")]
 
 
 def _fix_ffs(ffs):
@@ -58,11 +60,14 @@ def _fix_ffs(ffs):
 
 # ------------------------------------------------------------------ S -> I: variants
 
-def classify(obs, exp, vrec):
-    """ok / bad (+ a hint when the deviating observation equals what the repaired finding F33 would give for this very presentation)"""
+def classify(obs, exp, vrec, written=False):
+    """ok / bad (+ a hint when the deviating observation equals what the repaired finding F33 would give for this very presentation);
+    written: the observation was read back from the .itp, whose writer lists a-b / b-a (and reversed angles) in one canonical order"""
+    if written:
+        obs, exp = iu.canon(obs), iu.canon(exp)
     if iu.same(obs, exp):
         return "ok", None
-    if vrec.get("itpdiffers") and iu.same(obs, iu.expected_proj(vrec["itpout"])):
+    if vrec.get("itpdiffers") and iu.same(obs, iu.canon(iu.expected_proj(vrec["itpout"])) if written else iu.expected_proj(vrec["itpout"])):
         return "bad", "itpGlobal"
     return "bad", None
 
@@ -89,11 +94,11 @@ def _replay_chunk(arg):
             gv["route"] = "json"
             obs2, path = iu.run_gen_params(case, F, gv, wd, tag="g%d_%d" % (case["id"], vidx))
             stats["gen_params"] += 1
-            kind2, flag2 = classify(obs2, exp, vrec)
+            kind2, flag2 = classify(obs2, exp, vrec, written=True)
             if kind2 != "ok":
-                out.append((case["id"], vidx, "gen_params", kind2, flag2, iu.diff(obs2, exp)[:3], {k: obs2.get(k) for k in ("err", "msg", "atoms", "ints", "nrexcl", "cites")}))
-            elif kind == "ok" and not obs.get("err") and not iu.same(obs, obs2):
-                out.append((case["id"], vidx, "gen_params", "bad", None, ["written .itp differs from the molecule built by the processors: " + "; ".join(iu.diff(obs2, obs, "file", "molecule")[:2])], obs2))
+                out.append((case["id"], vidx, "gen_params", kind2, flag2, iu.diff(iu.canon(obs2), iu.canon(exp))[:3], {k: obs2.get(k) for k in ("err", "msg", "atoms", "ints", "nrexcl", "cites")}))
+            elif kind == "ok" and not obs.get("err") and not iu.same(iu.canon(obs), iu.canon(obs2)):
+                out.append((case["id"], vidx, "gen_params", "bad", None, ["written .itp differs from the molecule built by the processors: " + "; ".join(iu.diff(iu.canon(obs2), iu.canon(obs), "file", "molecule")[:2])], obs2))
     return {"res": out, "stats": stats}
 
 
@@ -165,7 +170,7 @@ def _run_history(arg):
     return {"machinery": "history process gave no result (rc=%s): %s" % (p.returncode, (p.stdout + p.stderr)[-800:])}
 
 
-def prepare_abstract_input(wd, k, case, F):
+def prepare_abstract_input(wd, k, case, F, lib=()):
     """render input k (catalogue case) once: residue graph json + the force-field files in base presentation.  Inputs that use the
     same force field use the SAME files (one directory per force field), as two calls on one library would"""
     fd = Path(wd) / ("ff%d" % case["ff"])
@@ -180,6 +185,15 @@ def prepare_abstract_input(wd, k, case, F):
     jp = d / "seq.json"
     jp.write_text(iu.graph_json(case, var))
     r = {"inpath": [str(p) for p in paths], "seq_file": str(jp), "name": "t", "label": "catalogue case %d (%s)" % (case["id"], " ".join(case["rn"]))}
+    if lib:
+        # the input names a LIBRARY and passes no inpath: a directory holding exactly the library's files, addressed by its absolute path
+        # (load_library joins the name onto its data path; an absolute name stands for itself)
+        ld = Path(wd) / ("lib_ff%d_%s" % (case["ff"], "_".join(str(i) for i in lib)))
+        if not ld.exists():
+            ld.mkdir(parents=True)
+            iu.write_files(ld, {**F, "bib": []}, [base[i - 1] for i in lib], "lib")
+        r = {"inpath": [], "lib": [str(ld)], "seq_file": str(jp), "name": "t",
+             "label": "catalogue case %d (%s) with lib=[files %s of force field %d], default inpath" % (case["id"], " ".join(case["rn"]), list(lib), case["ff"])}
     if case["mods"]:
         r["mods"] = iu.mods_arg(case)
     return r
@@ -208,7 +222,7 @@ def result_digest(r):
     return hashlib.sha1(r["body"].encode()).hexdigest()[:16]
 
 
-def replay_histories(ck, hres, ffs, tier):
+def replay_histories(ck, hres, ffs, tier, wdname="hist"):
     hin = hres.tagged("HINPUTS")
     if not hin:
         raise c.MachineryError("history model exported no inputs")
@@ -217,8 +231,8 @@ def replay_histories(ck, hres, ffs, tier):
     need = sum(len(hin) ** k for k in (1, 2, 3))
     if len(hists) != need:
         raise c.MachineryError("history model exported %d histories, expected %d" % (len(hists), need))
-    wd = c.workdir(PROP, "hist")
-    inputs = [prepare_abstract_input(wd, k + 1, x["case"], ffs[x["case"]["ff"] - 1]) for k, x in enumerate(hin)]
+    wd = c.workdir(PROP, wdname)
+    inputs = [prepare_abstract_input(wd, k + 1, x["case"], ffs[x["case"]["ff"] - 1], lib=x.get("lib") or ()) for k, x in enumerate(hin)]
     for k, x in enumerate(hin):
         if x["expected"]["err"]:
             inputs[k]["declared_failure"] = x["expected"]["err"]      # the input whose declared result is a failure (thorough tier)
@@ -234,13 +248,13 @@ def replay_histories(ck, hres, ffs, tier):
     for i, x in enumerate(hin):
         exp = iu.expected_proj(x["expected"])
         obs = fresh[i + 1]
-        d = iu.diff(obs, exp)
+        d = iu.diff(iu.canon(obs), iu.canon(exp))
         if d:
             ck.violation({"kind": "history input", "input": x["case"], "expected": x["expected"], "observed": {k: obs.get(k) for k in ("err", "msg", "atoms", "ints", "nrexcl", "cites")}},
                          what="fresh-process gen_params run of %s differs from the declared result: %s" % (inputs[i]["label"], "; ".join(d)[:300]))
     nruns = 0
     for x, r in zip(hists, results):
-        ck.nontrivial.add("h:" + ",".join(str(i) for i in x["h"]))
+        ck.nontrivial.add("h:%s:" % wdname + ",".join(str(i) for i in x["h"]))
         for k, i in enumerate(x["h"]):
             nruns += 1
             if not x["same"][k]:
@@ -319,6 +333,10 @@ def random_ff_case(rng, idx):
         if rng.random() < 0.6:    # angle over three residues
             links.append({"orders": [0, 1, 2], "atoms": [{"oi": k + 1, "an": "c2", "rn": list(names)} for k in range(3)],
                           "inters": [{"kind": "angles", "at": [1, 2, 3], "par": "0.25", "ver": 1}], "rep": [], "del": []})
+        if rng.random() < 0.35:   # `*` order: c1 of a residue to c2 of ANY bonded residue of the same name (asymmetric: both orientations apply)
+            nm = rng.choice(names)
+            links.append({"orders": [0, 101], "atoms": [{"oi": 1, "an": "c1", "rn": [nm]}, {"oi": 2, "an": "c2", "rn": [nm]}],
+                          "inters": [{"kind": "bonds", "at": [1, 2], "par": "0.27", "ver": 1}], "rep": [], "del": []})
         if rng.random() < 0.4:    # retype
             links.append({"orders": [0], "atoms": [{"oi": 1, "an": "c1", "rn": [rng.choice(names)]}], "inters": [], "rep": [{"a": 1, "ty": "TX"}], "del": []})
     # residue graph
@@ -546,7 +564,9 @@ def history_pool(wd, hinputs, tier):
              {"inpath": [str(td / "PPI.ff")], "seq_file": seqf("PPI.json"), "name": "t", "label": "-f PPI.ff -seqf PPI.json"},
              {"inpath": [str(td / "PEO.martini.3.itp")], "seq": ["PEO:5"], "name": "t", "label": "-f PEO.martini.3.itp -seq PEO:5"},
              {"inpath": [str(td / "test_edge_attr.ff")], "seq_file": seqf("test_edge_attr.json"), "name": "t", "label": "-f test_edge_attr.ff -seqf test_edge_attr.json"},
-             {"inpath": [str(td / "removal.ff")], "seq": ["PEO:3"], "name": "t", "label": "-f removal.ff -seq PEO:3"}]
+             {"inpath": [str(td / "removal.ff")], "seq": ["PEO:3"], "name": "t", "label": "-f removal.ff -seq PEO:3"},
+             {"inpath": [], "lib": ["martini3"], "seq": ["P3HT:3"], "name": "t", "label": "-lib martini3 -seq P3HT:3"},
+             {"inpath": [], "lib": ["martini2"], "seq": ["P3HT:3"], "name": "t", "label": "-lib martini2 -seq P3HT:3"}]
     if tier == "thorough":
         pool += [{"inpath": [], "lib": ["2016H66"], "seq": ["PMMA:3"], "name": "t", "label": "-lib 2016H66 -seq PMMA:3"},
                  {"inpath": [], "lib": ["gromos53A6"], "seq": ["P3HT:3"], "name": "t", "label": "-lib gromos53A6 -seq P3HT:3"},
@@ -598,13 +618,15 @@ def run(tier, prop=PROP):
     ck.stage("TLC: confluence model, sensitivity, history model, exports")
     jobs = [("main", "IndependenceMC", "Ind_quick.cfg" if tier == "quick" else "Ind_full.cfg", 4 if tier == "quick" else 8, {}),
             ("export", "IndependenceExport", "Ind_export.cfg", 1, {}),
-            ("hist", "IndependenceHistMC", "Ind_hist_3.cfg" if tier == "quick" else "Ind_hist_4.cfg", 1, {})]
+            ("hist", "IndependenceHistMC", "Ind_hist_3.cfg" if tier == "quick" else "Ind_hist_4.cfg", 1, {}),
+            ("histlib", "IndependenceHistMC", "Ind_hist_lib.cfg", 1, {})]
     jobs += [("dev:" + cfg, "IndependenceMC", cfg, 1, {"check": False}) for cfg, _ in DEVS]
     jobs += [("hdev:" + cfg, "IndependenceHistMC", cfg, 1, {"check": False}) for cfg, _ in HDEVS]
     from ..links_util import run_jobs
     res = run_jobs(jobs)
     ck.model_must_hold(res["main"], "Confluent / BaseAsDeclared / DomainInv / NoSpuriousFailure / FiredOnlyKnown")
     ck.model_must_hold(res["hist"], "HistoryIndependent / RepeatStable")
+    ck.model_must_hold(res["histlib"], "HistoryIndependent / RepeatStable (library inputs with the default inpath)")
     for cfg, what in DEVS:
         ck.model_must_refute(res["dev:" + cfg], "Confluent", what)
     for cfg, what in HDEVS:
@@ -618,6 +640,7 @@ def run(tier, prop=PROP):
 
     ck.stage("S->I: all histories of <= 3 calls, one process each")
     hinputs = replay_histories(ck, res["hist"], ffs, tier)
+    hinputs += replay_histories(ck, res["histlib"], ffs, tier, "histlib")[:2]
 
     ck.stage("I->S: random cases, repository force fields, random histories")
     rng = random.Random(sd * 1000003 + 13)
@@ -655,6 +678,7 @@ def run(tier, prop=PROP):
     ck.extra["random_cases_beyond_former_findings"] = {
         "from_itp_in_cyclic_graph": sum(1 for F, cs in gen if any(cs["fi"]) and len(cs["E"]) >= cs["n"]),
         "two_separate_fragments": sum(1 for F, cs in gen if _nfrag(cs) >= 2),
+        "star_order_links": sum(1 for F, cs in gen if any(o >= 100 for l in F["links"] for o in l["orders"])),
         "link_versions_next_to_itp_files": sum(1 for F, cs in gen if any(f["syn"] == "itp" for f in F["files"]) and any(x["ver"] != 1 for l in F["links"] for x in l["inters"]))}
     ck.extra["random_cases"] = {"cases": len(recs), "variants": sum(len(r["vars"]) for r in recs), "variants_with_reordered_definitions": nreordered,
                                 "with_mustkeep_pairs": sum(1 for k in keeps if k)}
